@@ -73,7 +73,7 @@ func (P *Program) verifyFunction(key string, opts VerifyOpts) (res *FnResult) {
 
 	st := newState()
 	top0 := c.sc.fresh("top0", sInt)
-	c.sc.assume(ge(top0, "0"))
+	c.sc.assume(ge(top0, "1")) // object 1 is the holder of ghost state functions
 	st.top = top0
 	c.entryTop = top0
 	fr := c.newFrame(fn)
@@ -138,7 +138,9 @@ func (P *Program) verifyFunction(key string, opts VerifyOpts) (res *FnResult) {
 	// obligation, one query per path): no ite-merged heaps in the goals
 	var posts []*Env
 	var reaches []T
+	var poss []int
 	for _, re := range rets {
+		poss = append(poss, re.pos)
 		post := &Env{c: c, pkg: fr.pkg, vars: map[string]Val{}, st: re.st, old: c.entry, oldTop: top0, at: key}
 		for k, v := range fr.params {
 			post.vars[k] = v
@@ -148,15 +150,29 @@ func (P *Program) verifyFunction(key string, opts VerifyOpts) (res *FnResult) {
 		reaches = append(reaches, re.cond)
 		c.applyUses(ct, post, re.cond)
 	}
+	// reachability probe per return path (information only: a path may be dead
+	// under the precondition, but a path that should be live and is not points
+	// at contradictory assumptions)
+	if len(rets) > 1 {
+		for i, re := range rets {
+			o := &Obligation{Fn: c.fnKey, Name: fmt.Sprintf("reach:return%d", i), Kind: "smoke", Pos: c.P.pos(re.src), mark: c.sc.mark(),
+				cond: re.cond, sc: c.sc, Smoke: true, Info: true, hide: c.sc.hideFor(re.pos)}
+			c.obls = append(c.obls, o)
+		}
+	}
 	for _, cl := range ct.Ensures {
 		if !cl.inSlice(opts.Prop) {
+			continue
+		}
+		if cl.Assumed {
+			c.trust("postulate (postcondition of " + key + " used by callers, not checked against the body): " + cl.Text)
 			continue
 		}
 		var goals []T
 		for _, post := range posts {
 			goals = append(goals, c.evalClause(post, cl))
 		}
-		c.obligeParts("postcondition", "post:"+cl.name(), cl.Tags, reaches, goals, fn.Pos(), cl.Text)
+		c.obligeParts("postcondition", "post:"+cl.name(), cl.Tags, reaches, goals, fn.Pos(), cl.Text, poss...)
 	}
 	c.frameObligations("frame", c.entry, out, locs, oreach, top0, fn.Pos())
 	c.smoke("smoke:exit", oreach, fn.Pos())
